@@ -57,11 +57,14 @@ def check(tier="quick", seed=0, workers=None, only=None, pid=PID, prefixes=PREFI
     cst, cinfo = conc.run_for(pid, tier, seed, workers, only)
     from . import rconc
     rst, rinfo = rconc.run_for(pid, tier, seed, workers, only)
-    viols = common.collect(st, prefixes) + common.collect(cst, prefixes) + common.collect(rst, prefixes)
+    from . import backends
+    bst, binfo = backends.run_for(tier, seed, workers, only)
+    viols = common.collect(st, prefixes) + common.collect(cst, prefixes) + common.collect(rst, prefixes) + common.collect(bst, prefixes)
     total = engine.Stats(bound=1)
     total.merge_from(st)
     total.merge_from(cst)
     total.merge_from(rst)
+    total.merge_from(bst)
     total.samples = st.samples[:3] + cst.samples[:4]
     cov = evidence.stats_coverage(
         total,
@@ -70,7 +73,7 @@ def check(tier="quick", seed=0, workers=None, only=None, pid=PID, prefixes=PREFI
               "(retries=N, N+1 faults: every way of failing N attempts at the TCP/TLS stage and then failing anywhere in the next); concurrent part: see "
               "'concurrent' key; non-trivial = outcome class (victim result, pool repr, probe result, fault@op) of an execution with an injected fault or a cancellation"),
         extra={"sequential": {"scenarios": len(specs), "executions": st.evaluations, "states": st.states},
-               "concurrent": cinfo, "trio_world": rinfo, "other_oracles_seen": common.foreign(st, prefixes)})
+               "concurrent": cinfo, "trio_world": rinfo, "real_backends": binfo, "other_oracles_seen": common.foreign(st, prefixes)})
     return {"level": "fault_enumeration", "coverage": cov, "violations": viols,
             "assumptions": ["faults are the documented backend exceptions; a failed write delivers none of its bytes; a hard read/write error means the peer is gone",
                             "start_tls closes the transport when it fails with an Exception, as all three real backends do; not on cancellation"]}
